@@ -415,7 +415,7 @@ pub fn decode_callset(data: &[u8]) -> (crate::gen::callset::CallSet, crate::gen:
             id: hdr & 0x20 != 0,
             qual: if hdr & 0x40 != 0 { Some(step as u16) } else { None },
             filter: step % 3,
-            info: step & 7,
+            info: step & 63,
             fmt_dp: step & 8 != 0,
             fmt_gq: step & 16 != 0,
             ref_pad: if step == 255 { 300 } else { 0 },
